@@ -2,9 +2,11 @@
 """Runs the repository's own suite (guard off, default toolchain) and checks that
 every test in BASELINE.json's stable_pass passes."""
 import json,subprocess,sys
+import os
+REPO=os.environ.get('REPO','/repo')
 base=json.load(open('/root/.vp/BASELINE.json'))
 want=set(base['stable_pass'])
-p=subprocess.run('cd /repo && go test -json -vet=off -count=1 -timeout 25m ./...',shell=True,capture_output=True,text=True)
+p=subprocess.run('cd '+REPO+' && go test -json -vet=off -count=1 -timeout 25m ./...',shell=True,capture_output=True,text=True)
 passed=set()
 for l in p.stdout.splitlines():
     try: e=json.loads(l)
